@@ -178,8 +178,8 @@ def native_shape_issue(t, e, env, map_here=False, depth=0):
         return None
     if e[0] == "vec":
         te, ee = _res(t[1], env), _res(e[1], env)
-        if map_here and not isinstance(te, str) and te[0] == "record" and [i for i, _ in te[1]] != [0, 1]:
-            return "map"
+        if map_here and (isinstance(te, str) or te[0] != "record" or [i for i, _ in te[1]] != [0, 1]):
+            return "map"     # decided on the element TYPE before any element is read: also for an empty vector
         return native_shape_issue(t[1], e[1], env, False, depth + 1)
     wt = dict(t[1])
     if e[0] == "record":
